@@ -167,6 +167,12 @@ def _worker_call(job):
         except Exception:
             pass
         res.notes.setdefault("_item_s", []).append([str(item)[:60], round(time.time() - t0, 1)])
+        try:
+            import jax
+
+            jax.clear_caches()  # compiled functions of this item are not needed by the next one
+        except Exception:
+            pass
         return ("ok", res)
     except Exception as e:  # harness failure, never silently dropped
         return ("err", f"{modname}.{fname}({str(item)[:200]}): {type(e).__name__}: {e}\n{traceback.format_exc()}")
@@ -181,9 +187,23 @@ def fan_out(modname, fname, items, tier, seed, workers=None):
     if workers == 1 or len(items) == 1:
         outs = [_worker_call(j) for j in jobs]
     else:
+        # A worker that dies (OOM kill, XLA crash) must fail the run loudly, never hang it:
+        # ProcessPoolExecutor raises BrokenProcessPool, mp.Pool would wait forever.  Thorough
+        # tiers recycle workers so that compiled-function caches cannot pile up.
+        import concurrent.futures as cf
+
         ctx = mp.get_context("spawn")
-        with ctx.Pool(workers, initializer=_worker_init, maxtasksperchild=None) as pool:
-            outs = list(pool.imap_unordered(_worker_call, jobs, chunksize=1))
+        outs = []
+        pending = list(jobs)
+        try:
+            with cf.ProcessPoolExecutor(workers, mp_context=ctx, initializer=_worker_init, max_tasks_per_child=(3 if tier == "thorough" else None)) as ex:
+                futs = {ex.submit(_worker_call, j): j for j in jobs}
+                for fu in cf.as_completed(futs):
+                    outs.append(fu.result())
+                    pending.remove(futs[fu])
+        except cf.process.BrokenProcessPool as e:
+            for j in pending:
+                outs.append(("err", f"worker process died while running {j[0]}.{j[1]}({str(j[2])[:120]}) or a sibling item: {e}"))
     for tag, r in outs:
         if tag == "ok":
             total.merge(r)
